@@ -53,7 +53,7 @@ type EmulOpts struct {
 	Attached  bool
 	SMIMECaps bool
 	NoCerts   bool
-	ExtraAttr int // 0 none, 1 an unknown attribute with a SEQUENCE value, 2 signingCertificateV2-like, 3 both
+	ExtraAttr int // bits: 1 an unknown attribute with a SEQUENCE value, 2 signingCertificateV2-like, 4 id-aa-msgSigDigest (signed receipt), 8 id-aa-contentHint, 16 id-aa-securityLabel
 	Time      time.Time
 	Sorted    bool // attributes in DER SET OF order (what OpenSSL emits)
 	// beyond the SHA-256-with-signed-attributes profile (valid CMS, but not what C04 allows to verify and C16 speaks of):
@@ -95,6 +95,15 @@ func Emulate(id gen.Identity, content []byte, o EmulOpts) ([]byte, error) {
 	}
 	if o.ExtraAttr&2 != 0 {
 		attrs = append(attrs, cms.Attr([]uint64{1, 3, 6, 1, 4, 1, 311, 2, 1, 12}, der.Seq()))
+	}
+	if o.ExtraAttr&4 != 0 { // what `openssl cms -sign_receipt` adds: the digest of the receipt request's signature
+		attrs = append(attrs, cms.Attr([]uint64{1, 2, 840, 113549, 1, 9, 16, 2, 5}, der.Octets(cms.Digest(id.Cert.RawSubject))))
+	}
+	if o.ExtraAttr&8 != 0 {
+		attrs = append(attrs, cms.Attr([]uint64{1, 2, 840, 113549, 1, 9, 16, 2, 4}, der.Seq(der.Prim(12, []byte("hint")), der.OID(1, 2, 840, 113549, 1, 7, 1))))
+	}
+	if o.ExtraAttr&16 != 0 {
+		attrs = append(attrs, cms.Attr([]uint64{1, 2, 840, 113549, 1, 9, 16, 2, 2}, der.Set(der.OID(1, 2, 840, 113549, 1, 9, 3), der.SmallInt(3))))
 	}
 	if o.Sorted {
 		attrs = cms.SortSetOf(attrs)
@@ -203,7 +212,7 @@ func Draw(t *rapid.T, id gen.Identity) Seed {
 		s.Blob, err = pkcs7.SignPKCS7(id.Priv(), id.Cert, oid, c)
 	default:
 		o := EmulOpts{Time: time.Unix(int64(rapid.IntRange(0, 2000000000).Draw(t, "time")), 0), Sorted: kind != "emul_unsorted",
-			SMIMECaps: rapid.Bool().Draw(t, "caps"), NoCerts: rapid.IntRange(0, 4).Draw(t, "nocerts") == 0, ExtraAttr: rapid.IntRange(0, 3).Draw(t, "extra")}
+			SMIMECaps: rapid.Bool().Draw(t, "caps"), NoCerts: rapid.IntRange(0, 4).Draw(t, "nocerts") == 0, ExtraAttr: rapid.SampledFrom([]int{0, 1, 2, 3, 4, 8, 16, 5, 12, 31}).Draw(t, "extra")}
 		o.Attached = kind == "emul_smime_attached" || kind == "emul_cms_attached" || (kind == "emul_unsorted" && rapid.Bool().Draw(t, "att"))
 		o.CMS = kind == "emul_cms_attached"
 		switch kind {
